@@ -83,6 +83,10 @@ struct edge_t
     branchpoint_t* srcb;
     location_t* dst;
     branchpoint_t* dstb;
+#ifdef C04_BUILDER
+    frame_t select;
+    expression_t guard, assign, sync, prob;
+#endif
 };
 struct declarations_t
 {
@@ -112,6 +116,9 @@ struct template_t : public instance_t
     std::deque<branchpoint_t> branchpoints;
     std::deque<edge_t> edges;
     bool is_TA, dynamic, is_defined;
+#ifdef C04_BUILDER
+    symbol_t init;
+#endif
     int dyn_index;
     verif_str type, mode;
     location_t& add_location(verif_name name, expression_t inv, expression_t er, position_t pos);
@@ -349,3 +356,6 @@ int w08_inst(int what, int i)
 }
 int w08_mapped_count(int i) { int c = 0; for (int k = 0; k < VERIF_NSYMS; k++) c += doc.instances.at(i).mapping.has[k]; return c; }
 }
+#ifdef C04_BUILDER
+#include "builder04.inc" /* C04 kernel K2 on top of this environment */
+#endif
